@@ -49,7 +49,7 @@ for (_m, _K) in [(1, 1), (2, 2), (2, 3), (3, 3), (3, 4)]:
     _dominates(_m, _K, None)
 _dominates(2, 2, 3)
 _dominates(3, 3, 2)
-_dominates(4, 5, None, tier="thorough")
+_dominates(4, 5, None)
 _dominates(2, 2, None, W_kind="i")      # a cone given with integer entries (as in the class docstring): vectors stay real
 _dominates(2, 3, 2, W_kind="i")
 
